@@ -121,8 +121,10 @@ def gen_cases(rng, tier):
     for cls in CLASSES:
         # classes with a global budget (edits allowed / required) get more cases: the interesting ones
         # need part of the budget spent outside the window
-        for _ in range(N * (3 if cls in ("AvoidChanges", "EnforceChanges") else 1)):
+        for _ in range(N * (3 if cls in ("AvoidChanges", "EnforceChanges") else 2 if cls == "EnforceTerminalGCContent" else 1)):
             n = rng.choice([12, 18, 24, 30, 33, 45])
+            if cls == "EnforceTerminalGCContent":
+                n = rng.choice([10, 12, 16, 24])      # short sequences: both terminal windows close to any edit
             try:
                 desc, role, seq = gen_spec(rng, cls, n)
             except Exception:
@@ -140,7 +142,13 @@ def gen_cases(rng, tier):
                 except Exception:  # noqa  (class without a boost parameter / not usable as an objective)
                     pass
             mode = rng.random()
-            if mode < 0.25:
+            if cls == "EnforceTerminalGCContent" and rng.random() < 0.5:
+                mode = 0.0          # both terminal windows inside the edited zone
+            if mode < 0.1:
+                # wide windows: most of the sequence, both ends included
+                a = rng.randint(0, 3)
+                b = n - rng.randint(0, 3)
+            elif mode < 0.3:
                 # tiny windows anywhere around the span (codon / window border arithmetic)
                 a = rng.randint(max(0, a0 - 2), min(n - 1, max(a0, b0 + 1)))
                 b = min(n, a + rng.choice([1, 1, 2, 3]))
